@@ -270,7 +270,7 @@ def evaluate_expression(expr, options=None, locals_=None, builtins=True):
         if bin_op == '+':
             # number + number
             if _is_number(left_value) and _is_number(right_value):
-                return left_value + right_value
+                return _arithmetic(lambda: left_value + right_value)
 
             # string + string
             elif isinstance(left_value, str) and isinstance(right_value, str):
@@ -285,15 +285,15 @@ def evaluate_expression(expr, options=None, locals_=None, builtins=True):
             # datetime + number
             elif isinstance(left_value, datetime.date) and _is_number(right_value):
                 left_dt = value_normalize_datetime(left_value)
-                return left_dt + datetime.timedelta(milliseconds=right_value)
+                return _arithmetic(lambda: left_dt + datetime.timedelta(milliseconds=right_value))
             elif _is_number(left_value) and isinstance(right_value, datetime.date):
                 right_dt = value_normalize_datetime(right_value)
-                return right_dt + datetime.timedelta(milliseconds=left_value)
+                return _arithmetic(lambda: right_dt + datetime.timedelta(milliseconds=left_value))
 
         elif bin_op == '-':
             # number - number
             if _is_number(left_value) and _is_number(right_value):
-                return left_value - right_value
+                return _arithmetic(lambda: left_value - right_value)
 
             # datetime - datetime
             elif isinstance(left_value, datetime.date) and isinstance(right_value, datetime.date):
@@ -304,12 +304,12 @@ def evaluate_expression(expr, options=None, locals_=None, builtins=True):
         elif bin_op == '*':
             # number * number
             if _is_number(left_value) and _is_number(right_value):
-                return left_value * right_value
+                return _arithmetic(lambda: left_value * right_value)
 
         elif bin_op == '/':
             # number / number
             if _is_number(left_value) and _is_number(right_value):
-                return left_value / right_value
+                return _arithmetic(lambda: left_value / right_value)
 
         elif bin_op == '==':
             return value_compare(left_value, right_value) == 0
@@ -332,12 +332,12 @@ def evaluate_expression(expr, options=None, locals_=None, builtins=True):
         elif bin_op == '%':
             # number % number
             if _is_number(left_value) and _is_number(right_value):
-                return left_value % right_value
+                return _arithmetic(lambda: left_value % right_value)
 
         else: # bin_op == '**'
             # number ** number
             if _is_number(left_value) and _is_number(right_value):
-                return left_value ** right_value
+                return _arithmetic(lambda: left_value ** right_value)
 
         # Invalid operation values
         return None
@@ -357,6 +357,15 @@ def evaluate_expression(expr, options=None, locals_=None, builtins=True):
     # Expression group
     # expr_key == 'group'
     return evaluate_expression(expr['group'], options, locals_, builtins)
+
+
+# Helper to compute an arithmetic result - division by zero, overflow and non-real results are null
+def _arithmetic(compute):
+    try:
+        result = compute()
+    except (ArithmeticError, ValueError):
+        return None
+    return None if isinstance(result, complex) else result
 
 
 def _is_number(value):
